@@ -18,6 +18,11 @@ sys.path.insert(0, os.path.dirname(os.path.abspath(__file__)))
 import core  # noqa: E402
 
 
+# evidence/ and replays/ go under VERIF_OUT when set (used by seedtest.py so that runs against a changed copy of the
+# repository (BOB_REPO) never touch the committed evidence); default: /verif itself
+OUT = os.environ.get("VERIF_OUT", core.VERIF)
+
+
 def load_known():
     p = os.path.join(core.VERIF, "known_findings.json")
     if not os.path.exists(p):
@@ -26,7 +31,7 @@ def load_known():
 
 
 def write_replay(pid, tier, seed, k, payload):
-    d = os.path.join(core.VERIF, "replays")
+    d = os.path.join(OUT, "replays")
     os.makedirs(d, exist_ok=True)
     path = os.path.join(d, f"{pid}-{tier}-{seed}-{k}.json")
     with open(path, "w") as f:
@@ -40,9 +45,16 @@ def run(pid, tier, seed):
     core.check_env()
     scale = float(os.environ.get("VERIF_SCALE", "1"))
     ctx = core.Ctx(pid, tier, seed, scale)
+    # modelled source changed since the model was written?  Same oracles, larger case budget, thorough-only searches on.
+    import fingerprint
+    ctx.source_changed = fingerprint.changed(core.REPO, sorted(set(fingerprint.anchored_files(pid)) | {"src/bob/learn/em/utils.py"}))
+    if ctx.source_changed and tier == "quick":
+        ctx.scale *= float(os.environ.get("VERIF_CHANGED_SCALE", "3"))
+        for f_ in ctx.source_changed:
+            ctx.count("source-changed:" + os.path.basename(f_))
     known = load_known()
     import glob
-    for old in glob.glob(os.path.join(core.VERIF, "replays", f"{pid}-{tier}-{seed}-*.json")):
+    for old in glob.glob(os.path.join(OUT, "replays", f"{pid}-{tier}-{seed}-*.json")):
         os.remove(old)
 
     # ---- 2. proof obligations -------------------------------------------
@@ -78,7 +90,7 @@ def run(pid, tier, seed):
     bad_ops = sorted({b["op"] for b in corr_bad})
 
     # ---- 6. failing-input search on the implementation -------------------
-    ctx.broken = bool(proof_broken or corr_bad)
+    ctx.broken = bool(proof_broken or corr_bad or ctx.source_changed)
     failures = []
     # corpus first: minimised past failures and the witnesses of recorded findings
     cdir = os.path.join(core.VERIF, "corpus", pid)
@@ -155,8 +167,8 @@ def run(pid, tier, seed):
         "wall_s": round(time.time() - t0, 2),
         "violations": viol,
     }
-    os.makedirs(os.path.join(core.VERIF, "evidence"), exist_ok=True)
-    with open(os.path.join(core.VERIF, "evidence", f"{pid}.json"), "w") as f:
+    os.makedirs(os.path.join(OUT, "evidence"), exist_ok=True)
+    with open(os.path.join(OUT, "evidence", f"{pid}.json"), "w") as f:
         json.dump(core.tolist(ev), f, indent=1, default=str)
     for l in lines:
         print(l)
